@@ -114,6 +114,7 @@ mutant("m14q", "C14", "asmjit/core/assembler.cpp", "    if (ASMJIT_UNLIKELY(delt
 mutant("m16j", "C16", "asmjit/core/builder.cpp", "  dst->reset_inline_comment();\n\n  return err;", "  return err;", "revert fix: serialize_to() leaves the last node's inline comment on the destination")
 mutant("m18j", "C18", "asmjit/core/string.cpp", "  if (self_offset != SIZE_MAX) {\n    str = data() + self_offset;\n  }\n", "", "revert fix: a string appended to itself is read from the released buffer")
 mutant("m04g", "C04", "asmjit/core/codeholder.cpp", "      err = make_error(Error::kInvalidDisplacement);\n    }\n\n    it.next();", "    }\n\n    it.next();", "revert fix: an unencodable cross-section displacement is not reported")
+mutant("m14r", "C14", "asmjit/core/builder.cpp", "  Error err = label_node_of(Out(node), label);\n\n  if (ASMJIT_UNLIKELY(err != Error::kOk)) {\n    return report_error(err);\n  }\n", "  ASMJIT_PROPAGATE(label_node_of(Out(node), label));\n", "revert fix: Builder::bind() of an invalid label bypasses the error handler")
 
 def run(cmd, env=None, timeout=3600):
     e = dict(os.environ); e.update(env or {})
